@@ -34,7 +34,7 @@ def tla_set(xs):
 
 
 def write_cfg(path, classes, bound, export=True, invariants=True):
-    b = dict(MaxStories=3, Layouts=["plain", "between", "trailing", "both", "nt1", "blank"], MaxSrc=2, MaxCarried=2,
+    b = dict(MaxStories=3, Layouts=["plain", "both", "nt1", "blank", "attr"], MaxSrc=2, MaxCarried=2,
              MaxItems=3, ILayouts=["bare", "mixed"])
     b.update(bound or {})
     lines = ["SPECIFICATION Spec", "CONSTANTS",
@@ -108,6 +108,65 @@ def execute_cases(gen, seed, prefix, procs=16):
     return events, {cid: (key, msg) for cid, key, msg in todo}
 
 
+def _run_chunk_file(args):
+    """execute a chunk of cases and write the events straight to a shard file for the judge (no pickling back)"""
+    n, chunk, wd = args
+    from . import execute
+    events, light, mach = [], [], []
+    for cid, key, msg in chunk:
+        try:
+            ev = execute.run_case(cid, _G["pres"][key], msg, _G["seed"])
+            events.append(ev)
+            light.append((cid, msg["cls"], ev["status"]))
+        except execute.Machinery as e:
+            mach.append(str(e))
+    path = os.path.join(wd, "ev%d.json" % n)
+    with open(path, "w") as f:
+        json.dump(events, f)
+    return path, len(events), light, mach
+
+
+def execute_to_files(gen, seed, prefix, name, procs=16):
+    wd = tlc.workdir("events-" + name)
+    todo = [("%s%d" % (prefix, i), key, msg) for i, (key, msg) in enumerate(gen["cases"])]
+    nfiles = max(1, min(procs, (len(todo) + 199) // 200))
+    chunks = [(n, todo[n::nfiles], wd) for n in range(nfiles)]
+    ctx = multiprocessing.get_context("fork")
+    with ctx.Pool(procs, initializer=_init, initargs=(gen["pres"], seed)) as pool:
+        parts = pool.map(_run_chunk_file, chunks)
+    return parts, {cid: (key, msg) for cid, key, msg in todo}
+
+
+def judge_files(parts, name, module="Trace_Merge"):
+    """parts: [(path, n_events, ...)] written by the workers; one TLC judge per file, all in parallel"""
+    parts = [p for p in parts if p[1] > 0]
+    if not parts:
+        return [], {"judged": 0, "states": 0}
+
+    def one(i):
+        res = tlc.run(module, module + ".cfg", "judge-%s-%d" % (name, i), workers=1,
+                      env={"TRACE_FILE": parts[i][0]}, timeout=3000, heap="3g")
+        os.remove(parts[i][0])
+        return res
+
+    with ThreadPoolExecutor(max_workers=16) as ex:
+        results = list(ex.map(one, range(len(parts))))
+    bad, judged, states = [], 0, 0
+    for i, res in enumerate(results):
+        tlc.require_ok(res, "%s shard %d of %s" % (module, i, name))
+        j = res["lines"].get("JUDGED", [])
+        if not j or int(j[-1]) != parts[i][1]:
+            raise tlc.TlcError("judge shard %d of %s consumed %s of %d events" % (i, name, j, parts[i][1]))
+        judged += parts[i][1]
+        states += res["stats"].get("distinct", 0)
+        seen = set()
+        for raw in res["lines"].get("BAD", []):
+            if raw not in seen:
+                seen.add(raw)
+                bad.append(json.loads(raw))
+    return bad, {"judged": judged, "states": states}
+
+
 def judge(events, name, shards=16, module="Trace_Merge"):
     """TLC judges every event; returns list of BAD records and judge stats"""
     wd = tlc.workdir("judge-" + name)
@@ -176,25 +235,27 @@ def run_merge_check(report, families, seed, tier, extra_assumptions=None):
         for c in classes:
             if per.get(c, 0) == 0:
                 report.machinery_error("class %s produced no transition in family %s" % (c, name))
-        events, index = execute_cases(gen, seed, name + ":")
-        for e in events:
-            if "machinery" in e:
-                report.machinery_error(e["machinery"])
-        good = [e for e in events if "machinery" not in e]
-        for e in good:
-            k = e["msg"]["cls"]
-            cov["per_class"][k] = cov["per_class"].get(k, 0) + 1
-            s = e["status"].split(":")[0]
-            cov["status_counts"][s] = cov["status_counts"].get(s, 0) + 1
-        bad, jst = judge(good, "%s-%s" % (prop, name))
+        parts, index = execute_to_files(gen, seed, name + ":", "%s-%s" % (prop, name))
+        for _, _, light, mach in parts:
+            for msg in mach:
+                report.machinery_error(msg)
+            for cid, k, status in light:
+                cov["per_class"][k] = cov["per_class"].get(k, 0) + 1
+                s = status.split(":")[0]
+                cov["status_counts"][s] = cov["status_counts"].get(s, 0) + 1
+        bad, jst = judge_files(parts, "%s-%s" % (prop, name))
         cov["traces_validated_against_impl"] += jst["judged"]
         cov["states"] += jst["states"]
-        byid = {e["id"]: e for e in good}
         rnd = random.Random(seed)
-        for e in rnd.sample(good, min(2, len(good))):
-            cov["samples"].append({"id": e["id"], "msg": e["msg"], "status": e["status"], "warns": e["warns"],
-                                   "pre_story_ids": [k["id"] for k in e["pre"]["kids"] if k["tag"] == "story"],
-                                   "post_story_ids": [k["id"] for k in e["post"]["kids"] if k["tag"] == "story"]})
+        for cid in rnd.sample(sorted(index), min(2, len(index))):
+            key, msg = index[cid]
+            try:
+                e = execute.run_case(cid, gen["pres"][key], msg, seed)
+                cov["samples"].append({"id": cid, "msg": msg, "status": e["status"], "warns": e["warns"],
+                                       "pre_story_ids": [k["id"] for k in e["pre"]["kids"] if k["tag"] == "story"],
+                                       "post_story_ids": [k["id"] for k in e["post"]["kids"] if k["tag"] == "story"]})
+            except execute.Machinery:
+                pass
         for b in bad:
             for clause in b["clauses"]:
                 if clause == "continuity":
@@ -203,12 +264,12 @@ def run_merge_check(report, families, seed, tier, extra_assumptions=None):
                 if CLAUSE_PROPERTY.get(clause) != prop:
                     continue
                 key, msg = index[b["id"]]
-                detail = {"kind": "merge_case", "id": b["id"], "pre": gen["pres"][key], "msg": msg,
-                          "seed": seed, "observed": {k: byid[b["id"]][k] for k in ("status", "warns", "ser_eq", "post")}}
+                detail = {"kind": "merge_case", "id": b["id"], "pre": gen["pres"][key], "msg": msg, "seed": seed}
                 if report.failure(clause, b["sig"], detail) == "violation" and len(report.violations) <= 40:
                     try:
                         full = execute.run_case(b["id"], gen["pres"][key], msg, seed, keep_xml=True)
                         detail["xml"] = full.get("xml")
+                        detail["observed"] = {k: full[k] for k in ("status", "warns", "ser_eq", "post")}
                     except Exception as e:  # noqa: BLE001
                         detail["xml_error"] = repr(e)
     return cov
@@ -220,15 +281,16 @@ def run_merge_check(report, families, seed, tier, extra_assumptions=None):
 def life_property(kind, clause):
     """which listed properties a failing clause of a life event speaks about"""
     if clause == "continuity":
-        return ("C13",)
+        return ("C13", "C03")      # an object changed outside its own steps: shared content (C13) = a collateral edit (C03)
     if clause == "msg_intact":
         return ("C13",)
     if clause == "msg_expose":
         return ("C13", "C20")
     if kind == "reload":
         return {"reload_identity": ("C14",), "reload_completed": ("C07", "C14")}.get(clause, ())
-    if kind == "remerge" and clause in ("story_seq", "story_perm", "item_seq", "item_perm", "unnamed",
-                                        "carried", "reported"):
+    if kind == "remerge" and clause == "carried":
+        return ("C13", "C04")      # a re-used message object delivered something else than what was sent
+    if kind == "remerge" and clause in ("story_seq", "story_perm", "item_seq", "item_perm", "unnamed", "reported"):
         return ("C13",)
     p = CLAUSE_PROPERTY.get(clause)
     return (p,) if p else ()
